@@ -147,6 +147,14 @@ func material(m, keySize, total int) (key, iv, msg []byte) {
 	key = append([]byte(nil), h[:keySize]...)
 	h2 := sha256.Sum256([]byte(fmt.Sprintf("verif C10 iv material %d", m)))
 	iv = append([]byte(nil), h2[:16]...)
+	if m != 0 {
+		// a 16-byte IV cut from a larger buffer (as the shared secret usually is): a stream that
+		// builds its register by appending to the caller's slice would write into this spare room
+		// and share it with every other stream made from the same IV
+		big := make([]byte, 16, 96)
+		copy(big, h2[:16])
+		iv = big
+	}
 	if m == 0 {
 		// the protocol's habit: IV == shared secret
 		copy(iv, key[:16])
